@@ -83,3 +83,78 @@ func (w *World) ConnectWS(a, b erpc.Peer, sub NamedProto, prepare func(p *Pair))
 	}
 	return l, nil
 }
+
+// RawWS is a websocket connection to a peer's upgrade handler whose frames the harness writes
+// itself: the handshake is the real one, afterwards raw frame bytes go straight to the pair.
+type RawWS struct {
+	Pair *Pair
+	Conn *ws.Conn
+	B    erpc.Session // the accepting peer's session
+}
+
+// ConnectRawWS performs the websocket handshake with peer b over a new pair.
+func (w *World) ConnectRawWS(b erpc.Peer, sub NamedProto) (*RawWS, error) {
+	pair := NewPair()
+	lis := &oneShotListener{ch: make(chan net.Conn, 1), closed: make(chan struct{}), addr: pair.B.LocalAddr()}
+	lis.ch <- pair.B
+	srv := &http.Server{Handler: websocket.NewServeHandler(b, nil, sub.Fn)}
+	go srv.Serve(lis)
+	before := map[string]bool{}
+	b.RangeSession(func(s erpc.Session) bool { before[s.ID()] = true; return true })
+	w.mu.Lock()
+	w.closers = append(w.closers, func() { lis.Close(); srv.Close(); pair.Cut() })
+	w.mu.Unlock()
+	cfg, err := ws.NewConfig("ws://"+pair.A.RemoteAddr().String()+"/", "ws://"+pair.A.LocalAddr().String()+"/")
+	if err != nil {
+		return nil, err
+	}
+	c, err := ws.NewClient(cfg, pair.A)
+	if err != nil {
+		return nil, err
+	}
+	r := &RawWS{Pair: pair, Conn: c}
+	ok := WaitUntil(func() bool {
+		found := false
+		b.RangeSession(func(s erpc.Session) bool {
+			if !before[s.ID()] {
+				r.B, found = s, true
+				return false
+			}
+			return true
+		})
+		return found
+	})
+	if !ok {
+		return r, errors.New("websocket server session did not appear")
+	}
+	return r, nil
+}
+
+// WriteFrame writes one masked client frame (FIN set) with the given opcode; announce is the
+// payload length put into the header, payload what is actually sent after it.
+func (r *RawWS) WriteFrame(opcode byte, announce int, payload []byte) error {
+	hdr := []byte{0x80 | opcode}
+	switch {
+	case announce < 126:
+		hdr = append(hdr, 0x80|byte(announce))
+	case announce < 65536:
+		hdr = append(hdr, 0x80|126, byte(announce>>8), byte(announce))
+	default:
+		hdr = append(hdr, 0x80|127, 0, 0, 0, 0, byte(announce>>24), byte(announce>>16), byte(announce>>8), byte(announce))
+	}
+	hdr = append(hdr, 0, 0, 0, 0) // masking key 0: the payload travels as it is
+	if _, err := r.Pair.A.Write(hdr); err != nil {
+		return err
+	}
+	for len(payload) > 0 {
+		n := len(payload)
+		if n > 16<<10 {
+			n = 16 << 10
+		}
+		if _, err := r.Pair.A.Write(payload[:n]); err != nil {
+			return err
+		}
+		payload = payload[n:]
+	}
+	return nil
+}
